@@ -32,10 +32,10 @@ def run(pid, tier, replay=None):
         gens=[("ConcGen.tla", GEN, "sched", 6000 if th else 600, 80)],
         drivers=[("TestConcSched", {"VERIF_SCHED": "@sched", "VERIF_BOTH": 1 if th else 0}, ["conc_sched.ndjson"]),
                  ("TestConcFree", {"VERIF_N": 3000 if th else 300}, ["conc_free.ndjson"], {"race": True}),
-                 ("TestConcHammer", {"VERIF_N": 24 if th else 6, "VERIF_LEN": 4000 if th else 1500}, [], {"race": True})],
+                 ("TestConcHammer", {"VERIF_N": 24 if th else 6, "VERIF_LEN": 4000 if th else 1500}, ["conc_hammer.ndjson"], {"race": True})],
         replay_driver=("TestConcSched", "VERIF_REPLAY", "conc_sched.ndjson"),
         trace_module="ConcTrace.tla", trace_head=HEAD,
-        props=["T_C16look", "T_C16race"], invs=["I_C16virt", "I_C16final", "I_C16safe"], nontrivial=nontrivial, chunk=20000,
+        props=["T_C16look", "T_C16race"], invs=["I_C16virt", "I_C16final", "I_C16quiet", "I_C16safe"], nontrivial=nontrivial, chunk=20000,
         rule_text="(a) gated replay: the processes of TLC-generated schedules (management, two face teardowns, a forwarding thread; 1..3 operations each over "
                   "register / unregister / face down / fib add,remove / strategy set,unset / lookups on nested prefixes /a /a/b /a/c and /d) are real goroutines on the "
                   "real RIB and both FIB implementations, parked at gates before every RIB-mutex and FIB-lock acquisition and released one step at a time in TLC's order; "
@@ -45,7 +45,8 @@ def run(pid, tier, replay=None):
                   "(b) free run under the Go race detector: 2..16 goroutines (1..6 writers, 1..10 readers) issue the same kinds of operations concurrently, "
                   "invocations and returns stamped by one atomic counter, every history checked for linearizability by TLC; a race report, a runtime crash or a "
                   "deadlock is a violation; (c) hammer: 16 goroutines x 1500..4000 operations on the same few prefixes (writers, readers that consume the returned lists, "
-                  "FIB / strategy / RIB listings) under the race detector, judged by the detector and the runtime only; non-trivial = at least two goroutines took part",
+                  "FIB / strategy / RIB listings, two goroutines bringing faces up and down through the real face table with routes on them) under the race detector; "
+                  "judged by the detector, the runtime, and at quiescence by I_C16quiet (FIB = what the routes prescribe, nothing left of removed faces); non-trivial = at least two goroutines took part",
         assumptions=["TLC, JVM, Go runtime and the Go race detector trusted", "the gates sit before lock acquisitions: what a goroutine does between two gates is one step",
                      "the 40 ms window that classifies a released goroutine as blocked can only miss a violation, never invent one",
-                     "face-table (sync.Map) and dispatch maps are exercised by the whole-node drivers of C17, not here"])
+                     "the face table is exercised through Add / Get / GetAll / Remove (which tears the face's routes down) in the hammer; socket-level faces are not created"])
